@@ -445,8 +445,9 @@ def check(pid, tier, seed, replay=None):
             model_ok = False
     if model_ok:
         skip = getattr(prop, "model_skips", lambda o: False)
+        canon_impl = getattr(prop, "canon_impl", lambda o, x: x)     # for the comparison only, not for the oracle
         for o, a, b in zip(ops, impl_outs, model_outs):
-            if a != b and not skip(o):
+            if canon_impl(o, a) != b and not skip(o):
                 mismatches.append((o, a, b))
     if mismatches:
         for o, a, b in mismatches[:8]:
